@@ -69,7 +69,8 @@ pub enum Act {
     /// `attach`: coins sent along in a native deployment (normally = amount; sometimes more or less)
     Deposit { t: usize, v: usize, amount: u128, attach: u128 },
     Withdraw { t: usize, v: usize, amount: u128 },
-    Liquidate { who: String, v: usize, target: usize, limit: u128 },
+    /// `attach`: native coins the caller attaches although a liquidation takes no payment (0 in cw20 deployments)
+    Liquidate { who: String, v: usize, target: usize, limit: u128, attach: u128 },
     PayFunding { who: String, v: usize },
     NextBlock { dt: u64 },
     SetOracle { v: usize, price: u128 },
@@ -577,11 +578,15 @@ impl Interp {
                     }
                     _ => 0,
                 };
+                // one liquidation in three by a funded caller of a native deployment comes with stray coins attached
+                let whos = WHO[(*who as usize) % WHO.len()].to_string();
+                let attach = if self.w.cfg.native && *limit == 1 && self.w.balance(&whos) > 7 { 7 } else { 0 };
                 Act::Liquidate {
-                    who: WHO[(*who as usize) % WHO.len()].to_string(),
+                    who: whos,
                     v,
                     target,
                     limit: lim,
+                    attach,
                 }
             }
             Op::LiquidateWeakest { who, v } => {
@@ -601,6 +606,7 @@ impl Interp {
                     v,
                     target: best.map(|b| b.1).unwrap_or(0),
                     limit: 0,
+                    attach: 0,
                 }
             }
             Op::PayFunding { who, v } => Act::PayFunding {
@@ -645,8 +651,21 @@ impl Interp {
                 let v = self.v_of(*v);
                 let spot = pre.v[v].spot;
                 let tab: [u128; 18] = [100, 101, 99, 95, 105, 110, 90, 111, 89, 109, 91, 120, 80, 150, 50, 200, 30, 300];
-                let f = tab[idx(*knob, tab.len())];
-                let price = (spot / 100 * f + jitter(*knob, (spot / 1000).max(1))).max(1);
+                // four more classes: the oracle exactly on / one unit beside the 10% spread boundary, on either side of spot
+                let k = idx(*knob, tab.len() + 4);
+                let price = if k < tab.len() {
+                    let f = tab[k];
+                    (spot / 100 * f + jitter(*knob, (spot / 1000).max(1))).max(1)
+                } else {
+                    let above = mul_div_floor(spot, 10, 9) + 1; // smallest oracle with (oracle - spot)/oracle >= 10% (up to truncation)
+                    let below = mul_div_floor(spot, 10, 11); // largest oracle with (spot - oracle)/oracle >= 10%
+                    match k - tab.len() {
+                        0 => above,
+                        1 => above.saturating_sub(1).max(1),
+                        2 => below.max(1),
+                        _ => below + 1,
+                    }
+                };
                 Act::SetOracle { v, price }
             }
             Op::PushPrice { v, up, strength } => {
@@ -985,6 +1004,60 @@ impl Interp {
                 self.w.follow = Some(Act::Close { t, v, limit: 0 });
                 self.whale_trade(pre, v, up, amt)
             }
+            Op::Balance { v, t } => {
+                let v = self.v_of(*v);
+                let t = (*t as usize) % N_TRADERS;
+                let net = S::from_integer(pre.v[v].state.total_position_size);
+                if net.is_zero() {
+                    return Act::Skip;
+                }
+                // the net is long: sell; short: buy. Leverage 1, margin = quote notional.
+                let buy = net.is_neg();
+                let target = match net.mag_u128() {
+                    Some(m) => m,
+                    None => return Act::Skip,
+                };
+                let dir = if buy { Direction::AddToAmm } else { Direction::RemoveFromAmm };
+                // quote needed to move exactly `target` base (the vAMM's own quote), then bisection around it
+                let q0 = match self.output_amount(v, if buy { Direction::RemoveFromAmm } else { Direction::AddToAmm }, target) {
+                    Some(q) if q > 0 => q,
+                    _ => return Act::Skip,
+                };
+                let _ = dir;
+                let mk = |q: u128, it: &Interp| Act::Open { t, v, buy, margin: q, lev: d, limit: 0, attach: if it.w.cfg.native { it.expected_pull(pre, t, v, buy, q, d) } else { 0 }, directed: true };
+                let snap = self.w.snapshot();
+                let (mut lo, mut hi) = (q0.saturating_sub(q0 / 1000 + 4).max(1), q0 + q0 / 1000 + 4);
+                let mut best: Option<u128> = None;
+                for _ in 0..40 {
+                    if lo > hi {
+                        break;
+                    }
+                    let mid = lo + (hi - lo) / 2;
+                    let act = mk(mid, self);
+                    let r = self.exec_act(&act);
+                    let after = if r.ok { Some(S::from_integer(self.w.vamm_state(v).total_position_size)) } else { None };
+                    self.w.restore(&snap);
+                    match after {
+                        Some(a) if a.is_zero() => {
+                            best = Some(mid);
+                            break;
+                        }
+                        // still on the original side: trade more
+                        Some(a) if a.is_neg() == net.is_neg() => lo = mid + 1,
+                        Some(_) => {
+                            if mid == 0 {
+                                break;
+                            }
+                            hi = mid - 1
+                        }
+                        None => break,
+                    }
+                }
+                match best {
+                    Some(q) => mk(q, self),
+                    None => Act::Skip,
+                }
+            }
             Op::Intruder { v, who, kind, knob } => {
                 let v = self.v_of(*v);
                 let senders = [self.w.owner.clone(), self.w.stranger.clone(), self.w.traders[0].clone(), self.w.traders[WHALE].clone(), self.w.pauser.clone(), self.w.liquidator.clone()];
@@ -1031,16 +1104,29 @@ impl Interp {
                 let alias = format!("{}0", self.w.vamms[v]);
                 let victim = self.w.traders[crate::world::ALIAS_VICTIM].clone();
                 let a = u(d / 100 + jitter(*amt, d));
-                let msg = match kind % 6 {
-                    0 => eng::ExecuteMsg::DepositMargin { vamm: alias, amount: a },
-                    1 => eng::ExecuteMsg::WithdrawMargin { vamm: alias, amount: a },
-                    2 => eng::ExecuteMsg::ClosePosition { vamm: alias, quote_asset_limit: u(0) },
-                    3 => eng::ExecuteMsg::OpenPosition { vamm: alias, side: Side::Sell, margin_amount: a, leverage: u(d), base_asset_limit: u(0) },
-                    4 => eng::ExecuteMsg::Liquidate { vamm: alias, trader: self.w.traders[crate::world::ALIAS_ATTACKER].clone(), quote_asset_limit: u(0) },
-                    _ => eng::ExecuteMsg::Liquidate { vamm: self.w.vamms[v].to_string(), trader: victim, quote_asset_limit: u(0) },
+                // kinds 0-5: alice names the address "<vamm>0" (aliases 0alice's key if keys are plain concatenations);
+                // kinds 6-10: an account spelled like alice but in another letter case acts on alice's market, or is named in a Liquidate
+                let upper = self.w.traders[crate::world::ALIAS_ATTACKER].to_uppercase();
+                let real = self.w.vamms[v].to_string();
+                let attacker_pos_long = pre.pos[v][crate::world::ALIAS_ATTACKER].as_ref().map(|p| !p.size.is_negative()).unwrap_or(true);
+                let (sender, msg) = match kind % 11 {
+                    0 => (None, eng::ExecuteMsg::DepositMargin { vamm: alias, amount: a }),
+                    1 => (None, eng::ExecuteMsg::WithdrawMargin { vamm: alias, amount: a }),
+                    2 => (None, eng::ExecuteMsg::ClosePosition { vamm: alias, quote_asset_limit: u(0) }),
+                    3 => (None, eng::ExecuteMsg::OpenPosition { vamm: alias, side: Side::Sell, margin_amount: a, leverage: u(d), base_asset_limit: u(0) }),
+                    4 => (None, eng::ExecuteMsg::Liquidate { vamm: alias, trader: self.w.traders[crate::world::ALIAS_ATTACKER].clone(), quote_asset_limit: u(0) }),
+                    5 => (None, eng::ExecuteMsg::Liquidate { vamm: self.w.vamms[v].to_string(), trader: victim, quote_asset_limit: u(0) }),
+                    6 => (Some(upper.clone()), eng::ExecuteMsg::ClosePosition { vamm: real, quote_asset_limit: u(0) }),
+                    7 => (Some(upper.clone()), eng::ExecuteMsg::WithdrawMargin { vamm: real, amount: u(1 + jitter(*amt, 1000)) }),
+                    8 => (
+                        Some(upper.clone()),
+                        eng::ExecuteMsg::OpenPosition { vamm: real, side: if attacker_pos_long { Side::Sell } else { Side::Buy }, margin_amount: u(d / 1000 + 1), leverage: u(d), base_asset_limit: u(0) },
+                    ),
+                    9 => (Some(upper.clone()), eng::ExecuteMsg::DepositMargin { vamm: real, amount: u(1) }),
+                    _ => (Some(self.w.liquidator.clone()), eng::ExecuteMsg::Liquidate { vamm: real, trader: upper.clone(), quote_asset_limit: u(0) }),
                 };
                 Act::EngineAdmin {
-                    sender: self.w.traders[crate::world::ALIAS_ATTACKER].clone(),
+                    sender: sender.unwrap_or_else(|| self.w.traders[crate::world::ALIAS_ATTACKER].clone()),
                     msg,
                 }
             }
@@ -1095,13 +1181,13 @@ impl Interp {
                 },
                 0,
             ),
-            Act::Liquidate { v, target, limit, .. } => (
+            Act::Liquidate { v, target, limit, attach, .. } => (
                 eng::ExecuteMsg::Liquidate {
                     vamm: vaddr(*v),
                     trader: self.w.traders[*target].clone(),
                     quote_asset_limit: u(*limit),
                 },
-                0,
+                *attach,
             ),
             Act::PayFunding { v, .. } => (eng::ExecuteMsg::PayFunding { vamm: vaddr(*v) }, 0),
             Act::EngineAdmin { msg, .. } => (msg.clone(), 0),
@@ -1171,7 +1257,7 @@ pub fn act_json(act: &Act) -> Value {
         Act::Close { t, v, limit } => json!({"close": {"t": t, "v": v, "limit": limit.to_string()}}),
         Act::Deposit { t, v, amount, attach } => json!({"deposit": {"t": t, "v": v, "amount": amount.to_string(), "attach": attach.to_string()}}),
         Act::Withdraw { t, v, amount } => json!({"withdraw": {"t": t, "v": v, "amount": amount.to_string()}}),
-        Act::Liquidate { who, v, target, limit } => json!({"liquidate": {"who": who, "v": v, "target": target, "limit": limit.to_string()}}),
+        Act::Liquidate { who, v, target, limit, attach } => json!({"liquidate": {"who": who, "v": v, "target": target, "limit": limit.to_string(), "attach": attach.to_string()}}),
         Act::PayFunding { who, v } => json!({"pay_funding": {"who": who, "v": v}}),
         Act::NextBlock { dt } => json!({"next_block": dt}),
         Act::SetOracle { v, price } => json!({"set_oracle": {"v": v, "price": price.to_string()}}),
@@ -1229,6 +1315,11 @@ pub fn run_history(case: &HistCase, mon: &mut dyn Monitor, ctx: &Ctx, out: &mut 
             }
         }
         let sender = it.sender_of(&act);
+        if let Act::PayFunding { v, .. } = &act {
+            let mut fm = std::mem::take(&mut it.w.fmodel);
+            fm.expect_settlement(&it.w, &pre, *v);
+            it.w.fmodel = fm;
+        }
         let res = it.exec_act(&act);
         let post = observe(&it.w);
         it.w.fmodel.step(&act, &pre, &post, res.ok);
